@@ -272,7 +272,7 @@ func c02Configs(c *Ctx, thorough bool) []cfgVar {
 	}
 	for i := 0; i < k; i++ {
 		mode := modes[r.Intn(3)]
-		ato := r.Pick(0, 0, 500, 1500, 250)
+		ato := r.Pick(0, 0, 500, 1500, 250, 1001, 1005, 1130) // (1.001, 1.005, 1.13: decimal fractions whose product with 1000 falls just below the whole number in float64)
 		if mode == "n" && r.Intn(6) == 0 {
 			ato = -1
 		}
@@ -439,7 +439,7 @@ func genC05(c *Ctx) {
 			}
 			var cfgs []cfgVar
 			for _, mode := range []string{"n", "tlt", "tln"} {
-				cfgs = append(cfgs, mkCfg(0, 60, 0, 0, mode), mkCfg(r.Pick(0, 61), r.Pick(10, 30, 61, 300), r.Pick(0, 5), r.Pick(0, 500, 1500), mode))
+				cfgs = append(cfgs, mkCfg(0, 60, 0, 0, mode), mkCfg(r.Pick(0, 61), r.Pick(10, 30, 61, 300), r.Pick(0, 5), r.Pick(0, 500, 1500, 1005), mode))
 			}
 			type c05job struct {
 				cf    cfgVar
